@@ -106,7 +106,71 @@ fn c16_sealed_empty_packet_with_sequence_zero_roundtrips() {
         ServerResult::PacketToSend { payload, .. } => payload.to_vec(),
         other => panic!("expected a denial packet, got {:?}", other),
     };
-    assert_eq!(denied.len(), 17);
+    // (17 bytes while the server numbered its handshake replies from 0; 25 bytes since the nonce-space fix, defect 16)
     c.process_packet(&mut denied);
     assert_eq!(c.disconnect_reason(), Some(renetcode::DisconnectReason::ConnectionDenied));
+}
+
+/// sequence number (the AEAD nonce) carried in the clear by a sealed netcode datagram: prefix byte = type | (sequence bytes << 4)
+fn nonce_of(datagram: &[u8]) -> (u8, u64) {
+    let n = (datagram[0] >> 4) as usize;
+    let mut seq = 0u64;
+    for i in 0..n {
+        seq |= (datagram[1 + i] as u64) << (8 * i);
+    }
+    (datagram[0] & 0xF, seq)
+}
+
+/// C17 (U19 request.handshake_replies_use_the_upper_nonce_half): the server seals the challenge with `global_sequence` and the session's
+/// packets with the connection's own counter, both from 0 and both under the token's server-to-client key: the first challenge and the first
+/// keep-alive of the first client carry the same nonce
+#[test]
+fn c17_server_does_not_reuse_a_nonce_between_handshake_and_session() {
+    use renetcode::{NetcodeServer, ServerAuthentication, ServerConfig, ServerResult};
+    let key = *b"an example very very secret key.";
+    let addr: std::net::SocketAddr = "127.0.0.1:5000".parse().unwrap();
+    let mut server = NetcodeServer::new(ServerConfig {
+        current_time: Duration::ZERO,
+        max_clients: 4,
+        protocol_id: 7,
+        public_addresses: vec![addr],
+        authentication: ServerAuthentication::Secure { private_key: key },
+    });
+    let token = ConnectToken::generate(Duration::ZERO, 7, 30, 42, 15, vec![addr], None, &key).unwrap();
+    let mut client = NetcodeClient::new(Duration::ZERO, ClientAuthentication::Secure { connect_token: token }).unwrap();
+    let from: std::net::SocketAddr = "10.0.0.9:4000".parse().unwrap();
+
+    let mut sealed_by_server: Vec<Vec<u8>> = Vec::new();
+    let (request, _) = client.update(Duration::ZERO).unwrap();
+    match server.process_packet(from, request) {
+        ServerResult::PacketToSend { payload, .. } => {
+            sealed_by_server.push(payload.to_vec());
+            client.process_packet(payload);
+        }
+        other => panic!("expected a challenge, got {:?}", other),
+    }
+    let (response, _) = client.update(Duration::ZERO).unwrap();
+    match server.process_packet(from, response) {
+        ServerResult::ClientConnected { payload, .. } => {
+            sealed_by_server.push(payload.to_vec());
+            client.process_packet(payload);
+        }
+        other => panic!("expected a connection, got {:?}", other),
+    }
+    assert!(client.is_connected());
+    for _ in 0..3 {
+        let (_, packet) = server.generate_payload_packet(42, &[1, 2, 3]).unwrap();
+        sealed_by_server.push(packet.to_vec());
+    }
+    // all of these are sealed under the same server-to-client key of that one connect token
+    let nonces: Vec<(u8, u64)> = sealed_by_server.iter().map(|d| nonce_of(d)).collect();
+    for i in 0..nonces.len() {
+        for j in i + 1..nonces.len() {
+            assert!(
+                nonces[i].1 != nonces[j].1 || sealed_by_server[i] == sealed_by_server[j],
+                "two different datagrams sealed under one key with the same nonce {}: packet types {} and {}",
+                nonces[i].1, nonces[i].0, nonces[j].0
+            );
+        }
+    }
 }
